@@ -641,10 +641,33 @@ def opProgS (cfg : Cfg) (toks : List String) : Option (Prog String) :=
 fails — each call index of the healthy run × each error kind × a few partial-write lengths — as
 `<result class>|<files and links of the cache afterwards>`, de-duplicated.  The real outcome of an
 injected errno must be one of these (that is what carries the fault theorems over to the code). -/
-def faultSet (st : St) (env : Env) (toks : List String) : Option (List String) :=
-  match opProgS (mkCfg st.xx) toks with
-  | none => none
-  | some p =>
+def insertEverywhere {α : Type} (x : α) : List α → List (List α)
+  | [] => [[x]]
+  | y :: ys => (x :: y :: ys) :: (insertEverywhere x ys).map (y :: ·)
+
+def permsOf {α : Type} : List α → List (List α)
+  | [] => [[]]
+  | x :: xs => (permsOf xs).flatMap (insertEverywhere x)
+
+/-- The variants of an operation whose order of work is not determined by the code: `clear` removes
+the children of the cache directory in the order the directory happens to list them. -/
+def opVariants (cfg : Cfg) (toks : List String) : List (Prog String) :=
+  let cls {α : Type} (r : Res α) : String := match r with | .ok _ => "ok" | .error e => errStr e
+  match toks with
+  | ["clear", _, c] =>
+    (permsOf [0, 1, 2]).map (fun (perm : List Nat) => do
+      match ← Prog.call (.readDir (parsePath c)) with
+      | .entries es =>
+        let es' := if es.length == 3 then perm.filterMap (fun i => es[i]?) else es
+        let r ← removeEach es'
+        pure (cls r)
+      | .err e => pure (errStr (.io e))
+      | _ => pure (errStr (.io .other)))
+  | _ => match opProgS cfg toks with
+    | some p => [p]
+    | none => []
+
+def faultSet1 (st : St) (env : Env) (toks : List String) (p : Prog String) : List String :=
     let healthy := Prog.run env p st.fs
     let n := healthy.2.2.length
     let cache := parsePath (toks.getD 2 "c0")
@@ -654,13 +677,21 @@ def faultSet (st : St) (env : Env) (toks : List String) : Option (List String) :
       let call := healthy.2.2.getD i .now
       let lens : List Nat := match call with
         | .writeAt _ _ d | .appendWrite _ d => [0, 1, d.length / 2, d.length - 1, d.length]
+        | .removeTree q =>
+          -- every subset of the (at most 7) files and links below the tree
+          List.range (2 ^ (min 7 ((healthy.2.1.below q).length + ((Prog.crash env p st.fs i 0).below q).length)))
         | _ => [0]
       [EK.other, EK.notFound, EK.exists].flatMap (fun e =>
         lens.map (fun sh =>
           let plan : Nat → Option Prog.Fault := fun j => if j == i then some { e := e, short := sh } else none
           let r := Prog.runFault env plan p st.fs 0
           show_ r.1 r.2.1)))
-    some ((show_ healthy.1 healthy.2.1 :: outcomes).eraseDups)
+    (show_ healthy.1 healthy.2.1 :: outcomes).eraseDups
+
+def faultSet (st : St) (env : Env) (toks : List String) : Option (List String) :=
+  match opVariants (mkCfg st.xx) toks with
+  | [] => none
+  | ps => some ((ps.flatMap (faultSet1 st env toks)).eraseDups)
 
 /-- `crashset <op …>`: the files and links of the cache in every state a process kill can leave
 according to the model — on entry to each call of the op, with the in-flight call torn at every
